@@ -1623,6 +1623,20 @@ class Machine:
         s.store(s.ea(ins.ops[0]), simp(fp_to_int(rm, v, n, X87)), n // 8)
         s.ip += 1
 
+    def _fist(self, s, ins, n):
+        # non-popping store (fists/fistl): not printed by codegen.c today, kept in the vocabulary so that a
+        # pop dropped by a typo (fistpl -> fistl) is decided as an x87 residue instead of "unmodelled"
+        rm = rm_from_cw(s.cw)
+        if rm is None:
+            raise Unmodelled("symbolic x87 rounding control")
+        if not s.st:
+            raise X87Underflow("x87 stack underflow (value popped that this function did not push)")
+        s.store(s.ea(ins.ops[0]), simp(fp_to_int(rm, s.st[-1], n, X87)), n // 8)
+        s.ip += 1
+
+    def i_fists(self, s, ins): self._fist(s, ins, 16)
+    def i_fistl(self, s, ins): self._fist(s, ins, 32)
+
     def i_fistps(self, s, ins): self._fistp(s, ins, 16)
     def i_fistpl(self, s, ins): self._fistp(s, ins, 32)
     def i_fistpq(self, s, ins): self._fistp(s, ins, 64)
